@@ -199,6 +199,18 @@ def _content(variant, keys, k=0):
         holds = [(0.0, 1, 0.0), (1000.0, top, 0.001), (1000.0, top, 250.0), (-2000.0, 0, 2000.0), (7654321.987, top, 3600000.5), (7654321.987, 0, 3600000.5)]
         bpms = [(0.0, 120.0), (0.0, 240.0), (1000.0, 173.33333333333334), (1000.0, 60.0), (1234567.891, 0.5 + k), (-5000.0, 1000000.0)]
         svs = [(0.0, 1.0), (0.0, 0.01), (1000.0, -1.0), (1000.0, 0.0), (2000.0, 10.5), (1234567.891, 1.123456789), (-5000.0, 1.0)]
+    # ---- (17) which KIND of element comes first / last: an SV, then a hold, then a hit, all before the first tempo point; a tempo point after the last note
+    elif variant == "kinds_a":
+        svs = [(-900.0, 0.5), (100.0, 2.0)]
+        holds = [(-700.0, top, 300.0 + k)]
+        hits = [(-500.0, 0), (50.0 + k, top)]
+        bpms = [(0.0, 120.0), (400.0, 90.0)]
+    # ---- (17) the first element of every kind on ONE time (tempo point, hit, hold, SV), a hold alone before that in another lane order, an SV last
+    elif variant == "kinds_b":
+        bpms = [(-1000.0, 100.0 + k), (0.0, 200.0)]
+        hits = [(-1000.0, top), (300.0, 0)]
+        holds = [(-1000.0, 0, 250.0), (600.0, top, 100.0)]
+        svs = [(-1000.0, 1.75), (5000.0, 0.25)]
     # ---- whole numbers given as python ints (int-typed columns where the list class keeps them)
     elif variant == "ints":
         hits = [(0, 0), (500, 1), (500, top), (-250, top), (4000 + k, top)]
@@ -302,6 +314,54 @@ def _build_memory(game, variant, meta, keys=None, charts=None, lift=0):
         vs = [v for v, _ in charts] if charts is not None else [variant, "unsorted" if variant != "unsorted" else "full", "full" if variant == "sparse" else "sparse"]
         s.maps = [_fill_chart(g["chart"](), _content(v, 7, k), False) for k, v in enumerate(vs)]
     return s
+
+
+_MAPPED = ("offset", "column", "length", "bpm", "multiplier")
+
+
+def _fill_all(game, src):
+    """(14) every OTHER field of the source non-default, non-empty and different from its siblings: every text / bytes attribute of the
+    set and of each chart that is still empty gets a text naming the attribute, osu's title_unicode / artist_unicode get texts of their own,
+    and every numeric column of every list that the statement does not map gets values of its own (different per column and row)."""
+    import numpy as np
+
+    holders = [src] + (list(src.maps) if _game(game)["multi"] else [])
+    for hi, holder in enumerate(holders):
+        for k, v in list(vars(holder).items()):
+            if k in ("objs", "maps"):
+                continue
+            if k in ("tags", "initial_scroll_velocity"):
+                continue  # (declared as a list / a number; their empty-text default is not a text field)
+            tag = f"{k} of {'set' if hi == 0 else 'chart %d' % (hi - 1)}"
+            if isinstance(v, str) and v == "":
+                setattr(holder, k, tag)
+            elif isinstance(v, (bytes, bytearray)) and len(v) == 0:
+                setattr(holder, k, tag.encode("ascii"))
+    if game == "osu":
+        src.title_unicode, src.artist_unicode = "Unicode title of its own", "Unicode artist of its own"
+    for ci, c in enumerate(_charts(game, src)):
+        j = 0
+        for k, L in c.objs.items():
+            for name in list(L.df.columns):
+                if name in _MAPPED or len(L) == 0:
+                    continue
+                col = L.df[name]
+                j += 1
+                if col.dtype.kind in "iu":
+                    vals = np.arange(len(L)) % 3 + 1 + (j % 2)  # 1..4: inside what every such column (sample sets, volumes, metronomes) can hold
+                elif col.dtype.kind == "f":
+                    vals = (np.arange(len(L)) % 3 + 1 + (j % 2)).astype(float)
+                elif col.dtype.kind == "O" and all(isinstance(v, str) and v == "" for v in col):
+                    vals = np.array([f"{name} {i}.wav" for i in range(len(L))], dtype=object)
+                elif col.dtype.kind == "O" and all(isinstance(v, bytes) and v == b"" for v in col):
+                    vals = np.array([f"{name} {i}.wav".encode("ascii") for i in range(len(L))], dtype=object)
+                else:
+                    continue
+                try:
+                    setattr(L, name, vals.astype(col.dtype))
+                except Exception:  # noqa  (a column without a public setter stays as it is)
+                    pass
+    return src
 
 
 def _source_keys(game, base):
@@ -490,6 +550,10 @@ def _snapshot_diff(game, src, snap):
                 return f"chart {i}.{k}: content changed"
             if list(L.df.index) != list(df.index):
                 return f"chart {i}.{k}: row labels changed"
+            if [str(t) for t in L.df.dtypes] != [str(t) for t in df.dtypes]:
+                return f"chart {i}.{k}: column types changed: {dict(L.df.dtypes.astype(str))}, were {dict(df.dtypes.astype(str))}"
+            if type(L.df.index) is not type(df.index):
+                return f"chart {i}.{k}: row label type {type(L.df.index).__name__}, was {type(df.index).__name__}"
     for holder in [src] + (list(src.maps) if _game(game)["multi"] else []):
         now = {k: v for k, v in vars(holder).items() if k not in ("objs", "maps")}
         was = meta.get(id(holder))
@@ -503,6 +567,8 @@ def _snapshot_diff(game, src, snap):
                 same = True
             if not same:
                 return f"metadata {k}: {now[k]!r}, was {was[k]!r}"
+            if type(now[k]) is not type(was[k]):
+                return f"metadata {k}: type {type(now[k]).__name__} ({now[k]!r}), was {type(was[k]).__name__} ({was[k]!r})"
     return None
 
 
@@ -555,6 +621,8 @@ def _build_source(case):
     b = case["base"]
     if b["kind"] == "memory":
         src = _build_memory(game, b["variant"], b["meta"], keys=b.get("keys"), charts=b.get("charts"), lift=b.get("lift", 0))
+        if b.get("fill"):
+            src = _fill_all(game, src)
     else:
         src = _load_fixture(game, b["path"])
     for op in case["ops"]:
@@ -875,7 +943,7 @@ def _other_arguments(fn, shift_name):
     return [n for n in list(inspect.signature(fn).parameters)[1:] if n not in (shift_name, "raise_bad_mode")]
 
 
-NEW_VARIANTS = ["hits_only", "holds_only", "no_notes", "no_tempo", "empty", "single", "ties", "ints", "numpy"]
+NEW_VARIANTS = ["hits_only", "holds_only", "no_notes", "no_tempo", "empty", "single", "ties", "ints", "numpy", "kinds_a", "kinds_b"]
 
 
 def _new_memory_bases(game, rng):
@@ -890,6 +958,7 @@ def _new_memory_bases(game, rng):
         out += [mk(variant="sparse", meta="blank"), mk(variant="full", meta="punct"), mk(variant="hits_only", meta=wide)]
         # charts whose first lane(s) are empty: every converter, and a negative explicit shift where the converter has one
         out += [mk(variant="full", meta="ascii", lift=1), mk(variant="unsorted", meta="ascii", keys=7, lift=2), mk(variant="ties", meta="ascii", keys=7, lift=1)]
+        out[:0] = [mk(variant="full", meta="ascii", fill=True), mk(variant="kinds_a", meta="ascii", keys=7, fill=True)]  # (14), first: a truncated quick run reaches them
         return out
     if game == "o2jam":
         sets = [["hits_only", "no_notes", "holds_only"], ["full", "empty", "unsorted"], ["ties", "single", "ints"], ["no_tempo", "numpy", "full"], ["empty", "empty", "empty"]]
@@ -898,6 +967,8 @@ def _new_memory_bases(game, rng):
         # sets whose first lane(s) are empty (lanes numbered from 1 / from 2): a negative explicit shift stays inside the lanes
         out += [mk(variant="full", meta="ascii", lift=1), mk(variant="set", meta="ascii", charts=[["ties", None], ["hits_only", None], ["ints", None]], lift=2),
                 mk(variant="set", meta="ascii", charts=[["holds_only", None], ["numpy", None], ["single", None]], lift=1)]
+        # (14) / (17); last, so that a quick run cut short by the time budget keeps reaching the sources above as before
+        out += [mk(variant="full", meta="ascii", fill=True), mk(variant="set", meta="ascii", charts=[["kinds_a", None], ["kinds_b", None], ["full", None]])]
         return out
     # StepMania: any number of charts, any chart type
     ds, kb = "dance-single", "kb7-single"
@@ -912,6 +983,8 @@ def _new_memory_bases(game, rng):
         mk(variant="sparse", meta="blank"),
         mk(variant="full", meta="ascii", lift=1),  # first lane empty
     ]
+    out.insert(9, mk(variant="set", meta="ascii", charts=[["full", ds], ["unsorted", kb]], fill=True))  # (14), after the fixed sources, before the chart-type sets
+    out.insert(10, mk(variant="set", meta="ascii", charts=[["kinds_a", ds], ["kinds_b", kb]]))  # (17)
     # every chart type of the table (those reamber has a key count for and those it has none for), 5 per set, in seeded order
     # (the types Quaver can hold, 4 and 7 keys, in sets of their own so that SMToQua has to convert them)
     cyc = ["full", "unsorted", "hits_only", "sparse", "single"]
@@ -964,7 +1037,10 @@ def _from_game(game):
             "seeded 15% of the cases call through an instance of the converter class, 10% convert the same source twice, 8% convert another source in between and re-read the first result, "
             f"10% convert, then change the SAME source object by 1-2 of {CHANGES} (in-place edits of offsets / lengths / tempo through the list properties, columns through the stack, the title, "
             "appended items, newly assigned lists, rate()) and convert it again: the second result is held against the source as it is then, and observed twice; "
-            "the fields of every result list are also compared with the fields of the same list of a chart READ from a bundled file of the target game"
+            "the fields of every result list are also compared with the fields of the same list of a chart READ from a bundled file of the target game; "
+            "(14) two of the further sources (placed first) have EVERY other text / bytes attribute of the set and of each chart non-empty and named after itself, osu's title_unicode / artist_unicode different from title / artist, "
+            "and every numeric column the statement does not map (sample sets, volumes, metronomes ...) filled with values of its own; (15) source_untouched also compares every column's dtype, the row-label type and the TYPE of every attribute, "
+            "on every history state (fresh, rate(), stack edit, append ...); (17) contents kinds_a / kinds_b: an SV, a hold and a hit before the first tempo point, a tempo point after the last note, the first element of all four kinds on one time, an SV last"
         )
         rep.rule = "a case is (converter, arguments, way of calling, base chart, history, repetition); non-trivial when the history has at least one operation"
         rep.extra["arguments_not_varied"] = {n: _other_arguments(c[2], c[3]) for n, c in convs.items() if _other_arguments(c[2], c[3])}
